@@ -89,7 +89,8 @@ def run_case(case: dict) -> CaseResult:
         for tid in sub_types:
             sess.conn.add_message_callback(lambda m: got_cb.append(type(m).__name__), (by_id[tid],))
         mis = int(case.get("misalign", 0))
-        sched = [(t0 + off * (K / 128), tid) for off, tid in case["msgs"]]
+        # (with an abandoned disconnect() pending a DisconnectResponse would be its answer and end the session: sent as a pong instead)
+        sched = [(t0 + off * (K / 128), 8 if (tid == 6 and case.get("abandon")) else tid) for off, tid in case["msgs"]]
         for t, tid in sched:
             state["arrivals"].append(t)
         if not mis:
@@ -127,6 +128,27 @@ def run_case(case: dict) -> CaseResult:
         for ri, (off, tmo) in enumerate(case.get("reqs", [])):
             env.loop.sim_at(t0 + off * (K / 128), lambda ri=ri, tmo=tmo: None if sess.conn.connection_state.name != "CONNECTED" else
                             env.spawn(f"req{ri}", sess.cli.get_voice_assistant_configuration(timeout=tmo * (K / 128))))
+        # the application asks for the device's description; the answer (an arrival like any other) says the device is
+        # one that sleeps -- the keepalive rules and the kind of stop do not depend on what the device says about itself
+        if case.get("devinfo") is not None:
+            from aioesphomeapi import api_pb2 as pb
+
+            off = int(case["devinfo"])
+            env.loop.sim_at(t0 + off * (K / 128), lambda: None if sess.conn.connection_state.name != "CONNECTED" else env.spawn("devinfo", sess.cli.device_info()))
+            ta = t0 + (off + 2) * (K / 128)
+            state["arrivals"].append(ta)
+            sess.device_send_at(ta, pb.DeviceInfoResponse(name="dev", has_deep_sleep=True, mac_address="AA:BB:CC:DD:EE:FF"))
+        # a graceful disconnect() the caller gives up on (its task is cancelled before the device answered -- it never
+        # does): the session is still established and keeps being watched
+        if case.get("abandon"):
+            off, dur = case["abandon"]
+
+            def start_abandon():
+                if sess.conn.connection_state.name == "CONNECTED":
+                    env.spawn("abandon", sess.cli.disconnect())
+                    env.loop.sim_after(min(dur * (K / 128), 9.0), env.cancel, "abandon")
+
+            env.loop.sim_at(t0 + off * (K / 128), start_abandon)
         # a waiter with a huge timeout observes the connection's fatal error
         env.spawn("probe", sess.cli.get_voice_assistant_configuration(timeout=1e5))
         from vf.simloop import START
@@ -180,7 +202,9 @@ def run_case(case: dict) -> CaseResult:
         pr = env.results.get("probe")
         if pr is None or pr[0] != "exc" or type(pr[1]).__name__ != "PingFailedAPIError":
             res.violations.append(Violation(ID, "c10:death-cause:waiter-error", f"pending request got {pr and (pr[0], type(pr[1]).__name__)} instead of PingFailedAPIError"))
-        if [x[1] for x in s.stops] != [False]:
+        if case.get("abandon") and [x[1] for x in s.stops] == [True]:
+            pass  # a graceful disconnect had been initiated (and abandoned): the flag says so (C07); C10 does not judge it
+        elif [x[1] for x in s.stops] != [False]:
             res.violations.append(Violation(ID, "c10:death-cause:on_stop", f"stop callback calls {s.stops}, expected one call with False"))
         # derived bound of the statement: silent at t => dead within (t+5.5K, t+6.5K]
         last = max([t0] + [a for a in state["arrivals"] if a < got_death])
@@ -224,6 +248,10 @@ def run_case(case: dict) -> CaseResult:
         classes.add("noise")
     if case.get("pauses"):
         classes.add("writing_paused")
+    if case.get("devinfo") is not None:
+        classes.add("device_says_it_sleeps")
+    if case.get("abandon"):
+        classes.add("graceful_disconnect_abandoned")
     if not exact:
         classes.add("non_dyadic_K")
     res.classes = sorted(classes)
@@ -271,6 +299,10 @@ def _case(draw, tier):
     if draw(st.integers(0, 3)) == 0:
         on = 2 * draw(st.integers(0, 20 * 64))
         case["pauses"] = [[on, on + 2 * draw(st.one_of(st.integers(1, 100), st.integers(64, 64 * 12)))]]
+    if not case.get("misalign") and draw(st.integers(0, 3)) == 0:
+        case["devinfo"] = 2 * draw(st.integers(0, 10 * 64)) + 1
+    if draw(st.integers(0, 3)) == 0:
+        case["abandon"] = [2 * draw(st.integers(0, 20 * 64)), 2 * draw(st.one_of(st.integers(1, 64), st.integers(1, 64 * 6)))]
     return case
 
 
@@ -294,6 +326,12 @@ def enumerated(tier):
     for pat in (0, 5, 37, 301, 682):
         msgs = [[64 * i + 33 if (64 * i + 33) % 2 else 64 * i + 32 + 1, 8] for i in range(nslots) if pat >> i & 1]
         yield {"K": 2.0, "noise": pat % 2 == 1, "msgs": msgs, "login": False}
+    for pat in (0, 5, 37, 301, 682):
+        msgs = [[64 * i + 33 if (64 * i + 33) % 2 else 64 * i + 32 + 1, 8] for i in range(nslots) if pat >> i & 1]
+        for K in (2.0, 8.0):
+            yield {"K": K, "noise": pat % 2 == 1, "msgs": msgs, "devinfo": 41}
+            for off, dur in ((40, 20), (40, 300), (200, 64), (700, 100)):
+                yield {"K": K, "noise": pat % 2 == 0, "msgs": msgs, "abandon": [off, dur]}
     # requests timing out inside the pong window of the first / a later ping
     for off in (130, 200, 300, 400, 600):
         for tmo in (20, 64, 128, 250):
